@@ -1,5 +1,8 @@
 // Trusted prelude shared by all units (DESIGN §3). Everything here is ASSUMED, not proved.
 
+// the verified target is 64-bit (pearl's on-disk format stores usize as 8 bytes)
+global size_of usize == 8;
+
 // R3: errors are lowered to an opaque value that carries only the class a contract may need.
 pub enum IoKind { NotFound, PermissionDenied, UnexpectedEof, Other, Misc }
 pub enum ErrClass {
